@@ -78,7 +78,7 @@ def render_args(I, ctx, fa, sink):
     return ok
 
 
-@model('std::fmt::format', 'alloc::fmt::format', 're:^(alloc|std)::fmt::format::format_inner$')
+@model('std::fmt::format', 'alloc::fmt::format', 'format', 're:^(alloc|std)::fmt::format::format_inner$')
 def _(I, ctx, fa):
     sink = []
     if render_args(I, ctx, fa, sink): return StrV(sink)
